@@ -22,7 +22,8 @@ import (
 // Engine holds the loaded program and all contracts.
 type Engine struct {
 	BadPkgs    map[string][]string // initial packages left out by a tolerant Load, with their errors
-	NoBatch    bool                // solve every frame obligation on its own
+	RawLemmas  []RawLemma
+	NoBatch    bool // solve every frame obligation on its own
 	mapValMu   sync.Mutex
 	mapValKeys map[string]map[string]bool // per package: heap cells that can hold map values
 	Fset       *token.FileSet
